@@ -1,2 +1,3 @@
 import FlVerif.Drv.All
 import FlVerif.Props.C04
+import FlVerif.Props.C05
